@@ -6,8 +6,9 @@ props = [json.loads(l) for l in open(os.path.join(ROOT, 'properties.jsonl'))]
 
 VS_NOTE = ("Trusted base (the Joe scenarios additionally run the scheduler's happens-before race detector over instrumented field and map accesses): the vxform source rewrite (mechanical, type-directed; unsupported constructs abort the check), the vrt shim "
            "semantics of channels/select/close/sync/timers (Go spec), and the small-scope hypothesis for the stated bounds. Schedules are "
-           "explored at synchronisation-operation granularity under sequential consistency; plain-memory data races and weak-memory "
-           "effects are outside this engine. State-key pruning is validated by ./check <ID> --selftest (outcome sets with/without pruning).")
+           "explored at synchronisation-operation granularity under sequential consistency; plain-memory data races are reported by the "
+           "scheduler's happens-before detector where it is switched on (C03, C06, C07, C13: fields of synchronised structs incl. channel-typed "
+           "fields, and maps); weak-memory effects are outside this engine. State-key pruning is validated by ./check <ID> --selftest (outcome sets with/without pruning).")
 
 def vs(design, text):
     return dict(engine="vsched", category="model_checking", design=design,
@@ -61,7 +62,7 @@ for p in props:
         "evidence_file": "/verif/evidence/%s.json" % p['id'],
         "replay_cmd_template": "./check %s --replay {path}" % p['id'],
         "engine": c['engine'],
-        "level_claimed": {"category": c['category'], "text": c['text'], "design_ref": "DESIGN.md section " + c['design']},
+        "level_claimed": {"category": c['category'], "text": c['text'] + " The exact alphabets, scenario families and bounds of the current build are in the `rule` field of the evidence file and in the table of DESIGN.md section 4.", "design_ref": "DESIGN.md section " + c['design']},
         "level_note": c['note'],
         "technique": c['technique'],
     })
